@@ -173,8 +173,9 @@ func runC04(c *harness.Ctx) {
 	}
 	inWindow := func(h, E int64) bool { return h >= E-1 && h <= E+1 }
 
-	// (about two minutes of wall clock: one run in 5000 of the thorough tier,
-	// never in the quick tier, unless VERIF_C04_FLOOD_1IN says otherwise)
+	// (about a minute of wall clock: the run with index 0 of every check - one
+	// run per invocation, on the first worker - and one run in 5000 of the
+	// thorough tier; VERIF_C04_FLOOD_1IN overrides the rate)
 	floodIn := 0
 	if c.Tier == "thorough" {
 		floodIn = 5000
@@ -182,7 +183,7 @@ func runC04(c *harness.Ctx) {
 	if v, err := strconv.Atoi(os.Getenv("VERIF_C04_FLOOD_1IN")); err == nil {
 		floodIn = v
 	}
-	if !wovenBuild && floodIn > 0 && t.Draw("junk-flood", floodIn) == floodIn-1 {
+	if !wovenBuild && (c.Run == 0 || floodIn > 0 && t.Draw("junk-flood", floodIn) == floodIn-1) {
 		sim.RunWallExtra.Store(900)
 		// A long history: one genuine handshake is accepted, then more
 		// connections than the filter has room for present its X and mark with
@@ -200,7 +201,7 @@ func runC04(c *harness.Ctx) {
 		}
 		a.accepted++
 		const floodN = 102400 + 64
-		const batch = 256
+		const batch = 64
 		body := a.bytes[:len(a.bytes)-16]
 		done := 0
 		var batchLinks []*simnet.Link
